@@ -218,7 +218,7 @@ Section Conserve.
   Notation tc := (tcontent parent).
 
   (* what a tree contributes when it stands as a list item *)
-  Definition ic (t : tree) : list citem := CI (node_inlines (t_node t)) :: flat_map tc (t_children t).
+  Definition ic (t : tree) : list citem := CI (out_inlines parent (t_node t)) :: flat_map tc (t_children t).
 
   Lemma tc_list_items n c : node_is_list n = true -> forall i, tc (T i n c) = flat_map ic c.
   Proof.
@@ -480,7 +480,7 @@ Section ExtractContent.
   Variable parent : string.
   Notation tc := (tcontent parent).
 
-  Definition node_head (n : node) : list citem := match n with NSection l => [CI l] | _ => [] end.
+  Definition node_head (n : node) : list citem := match n with NSection l => [CI (rel_inlines parent l)] | _ => [] end.
 
   Lemma tc_flat i n c : flat_node n = true -> tc (T i n c) = node_head n ++ flat_map tc c.
   Proof. destruct n; try discriminate; reflexivity. Qed.
